@@ -1,5 +1,6 @@
 """C01 compiled SQL returns the relation the pipeline denotes."""
 import json, random
+import anchortrace
 import vlib, relgen, relcheck
 
 MANIFEST = dict(
@@ -8,14 +9,14 @@ MANIFEST = dict(
          "(split_respects_clause_order, for pipelines of any length); clause-order evaluation of an assembled SELECT block equals "
          "pipeline-order evaluation of every admissible segment incl. WHERE/GROUP BY/HAVING/ORDER BY/LIMIT, on the reference "
          "semantics itself (assemble_correct_rel, assemble_correct_rel_perm for sorts dropped before an aggregate, "
-         "assemble_correct_rel_of_split linking admissibility to the split table); any cut of a pipeline into admissible blocks (nested sub-queries / CTEs) denotes the rows of the pipeline, so the choice of split points cannot matter (chain_correct_rel, chain_cut_independent); the join-to-INTERSECT rewrite keeps the same rows as a set exactly on NULL-free rows (join_all_mem_iff) and differs with NULLs / duplicates (setop_rewrite_*_counterexample, listed finding); column-id redirects at a split commute with evaluation (split_glue_rename); documented edge cases "
-         "on the reference semantics. Tie: the reference semantics Model.Rel.evalSrc (Lean, executable) is compared with the rows "
+         "assemble_correct_rel_of_split linking admissibility to the split table); any cut of a pipeline into admissible blocks (nested sub-queries / CTEs) denotes the rows of the pipeline, so the choice of split points cannot matter (chain_correct_rel, chain_cut_independent); the join-to-INTERSECT rewrite keeps the same rows as a set exactly on NULL-free rows (join_all_mem_iff) and differs with NULLs / duplicates (setop_rewrite_*_counterexample, listed finding); column-id redirects at a split commute with evaluation (split_glue_rename); the reorder pass of the back end (mirror Model.Reorder) moves a compute only over sorts and - if it is plain - takes (reorder_moves_only_over_sorts_and_takes, nonplain_never_passes_take), such a move keeps the rows of the reference semantics for runs of any length (reorder_step_keeps_rows) and the restriction is necessary (window_not_hoisted_over_take); documented edge cases "
+         "on the reference semantics. Ties: every call of preprocess::reorder, split_off_back and anchor_split recorded while compiling a corpus (cargo feature verif) is replayed through the Lean mirrors (exact agreement); the reference semantics Model.Rel.evalSrc (Lean, executable) is compared with the rows "
          "SQLite returns for the SQL the real compiler emits, on generated programs x database instances (sqlite and generic targets).",
     note="assemble_correct_rel* are proved on Model.Rel itself (filter/derive/select/sort/take/aggregate/group-aggregate with HAVING; "
          "Lemmas/RelBlock*.lean), the older assemble_correct* on an integer-valued core; group-take, window, join and append are outside "
-         "the block theorem; the mirror of anchor_split/requirements and the front end (resolver, lowering) are not modelled: they are covered by the differential run "
+         "the block theorem; the splitter mirror (Model.Anchor, scope theorems under C07) is not yet connected to the block theorem by a full compiler-correctness proof, and the front end (resolver, lowering), the distinct / set-operation recognition of preprocess and moves of windowed computes over a Sort are not modelled: they are covered by the differential run "
          "against the reference semantics only. SQLite 3.40 value semantics trusted. Floats, dates, loop, s-strings outside the core.",
-    technique="Lean 4 proofs over regenerated split table + block normal form; reference-semantics differential run on SQLite", ref="4/C01")
+    technique="Lean 4 proofs over regenerated split table + block normal form + mirrored reorder / split passes (replayed from recorded calls); reference-semantics differential run on SQLite", ref="4/C01")
 
 SAFE = dict(declared=True, shared_k=False, append_inline=True, open_take=False, dup_names=False, shapes=True)
 FULL = dict(declared=True, shared_k=True, append_inline=False, open_take=True, dup_names=True, shapes=True)
@@ -71,7 +72,8 @@ def run(ctx):
     br = vlib.standard_proof_obligations(ctx, ["PrqlModel.Props.C01"], ["Split"],
         required_theorems=["join_all_mem_iff", "join_all_no_null", "setop_rewrite_null_counterexample", "setop_rewrite_multiplicity_counterexample", "chain_correct_rel", "chain_cut_independent", "table_sound_partial", "table_sound_full_counterexample", "split_respects_clause_order", "atomic_is_suffix", "assemble_correct",
                            "assemble_correct_agg", "split_glue_rename", "assemble_correct_rel", "assemble_correct_rel_perm", "assemble_correct_rel_of_split", "aggregate_order_independent_rel", "aggregate_one_row", "group_empty",
-                           "count_counts_nulls", "sum_empty_is_zero"])
+                           "count_counts_nulls", "sum_empty_is_zero", "reorder_moves_only_over_sorts_and_takes", "nonplain_never_passes_take",
+                           "reorder_step_keeps_rows", "window_not_hoisted_over_take"])
     ctx.rule = ("random well-scoped programs of the relational core (from/select/derive/filter/sort/take/aggregate/group/join/append, "
                 "let tables, 1-7 transforms) with resolved positional form for the Lean reference semantics, x random database instances "
                 "(0-7 rows, NULLs, duplicates, empty tables); the real SQL is executed on SQLite and compared with Model.Rel.evalSrc as a "
@@ -123,7 +125,15 @@ def run(ctx):
     nbad += explore(ctx, "full", random.Random(20240927), 200 if quick else 1500, FULL, "sql.sqlite")
     nbad += explore(ctx, "undeclared", random.Random(20240928), 150 if quick else 1000, UNDECL, "sql.sqlite", no_append=False)
     nbad += explore(ctx, "seed-tail", ctx.rng, 300 if quick else 3000, SAFE, "sql.sqlite")
-    ctx.obligation("oracle: real SQL on SQLite returns the rows of Model.Rel.evalSrc (all unlisted cases)", not ctx.violations,
+    # the back-end passes that are mirrored in Lean (reorder, split_off_back, anchor_split): every recorded call replayed
+    tprogs = [c.prql for c in syscases[:500 if quick else 3000]] + [c.prql for c in dia[:200 if quick else 1500]]
+    n_ev, n_bad, hooked = anchortrace.run_suite(ctx, tprogs, "passes", targets=("sql.sqlite", "sql.generic"))
+    if hooked:
+        ctx.obligation("correspondence: preprocess::reorder = Model.Reorder.reorderTr, split_off_back / anchor_split = Model.Anchor on every recorded call",
+                       n_bad == 0 and n_ev > 0, f"{n_ev} recorded calls replayed, {n_bad} differ")
+    else:
+        ctx.assumptions.append("the trace hooks are not available in this tree: the pass mirrors were not compared this run")
+    ctx.obligation("oracle: real SQL on SQLite returns the rows of Model.Rel.evalSrc (all unlisted cases)", not [v for v in ctx.violations if v["kind"] == "failing-input"],
                    f"{nbad} failing cases, all but {len(ctx.violations)} match listed findings")
 
 
